@@ -71,7 +71,8 @@ def jobs(tier, seed):
             for ex in (True, False):
                 out.append({'fn': 'quantize', 'cfg': {'pair': ['kg', 'lb'], 'flav': fl,
                                                       'quant': quants[(MODES.index(m) + ex) % 6],
-                                                      'mode': m, 'explicit': ex}})
+                                                      'mode': m, 'explicit': ex,
+                                                      'pass_none': MODES.index(m) % 2 == 0}})
     # flavour independence: both flavours are proved equal to the same *function* of the value
     # (is_rounding determines the multiple uniquely), so equality of the two results follows; a
     # direct "decimal result == fraction result" obligation relates two independent rounding
@@ -122,7 +123,7 @@ def kernel(E, cfg):
     x = E.integer('x')
     y = E.integer('y')
     E.assume(y > 0)
-    m = fn(x, y, mode if cfg['explicit'] else None)
+    m = fn(x, y, mode) if cfg['explicit'] else fn(x, y)
     E.check(E.div_is_rounding(mode, m, x, y), 'kernel-matches-definition',
             key='kernel-%s-%s' % (cfg['impl'], cfg['mode']))
     E.observe('m', m)
@@ -145,7 +146,12 @@ def _quantize_common(E, cfg, q):
     except ValueError:
         qnum = qv
     quant = Quantity(qnum, w)
-    r = q.quantize(quant, mode if explicit else None)
+    if explicit:
+        r = q.quantize(quant, mode)
+    elif cfg.get('pass_none'):
+        r = q.quantize(quant, None)
+    else:
+        r = q.quantize(quant)
     nq = qv * C.scale(w) / C.scale(u)           # quantum expressed in q's unit (oracle)
     return r, nq, mode
 
